@@ -2,6 +2,7 @@ import Cuke.Lemmas.Sched
 import Cuke.Model.SchedLts
 import Cuke.Props.C06
 import Cuke.Lemmas.SchedLts
+import Cuke.Lemmas.SchedExit
 /-!
 # C08 — Fail-fast stops dispatching after the first final failure, yet closes cleanly
 Model: `Cuke.tripFailFast`, `Cuke.Slots` (`brk`), `Cuke.getBatch`, `Cuke.isFinished`, `Cuke.finishAll`
@@ -106,4 +107,40 @@ theorem lts_no_dispatch_while_tripped (c : SCfg) (pre suf : List Label) (n : Nat
     have := hb4; rw [fb] at this; simpa using this
   omega
 
+
+/-! ## "… yet closes cleanly", over whole runs -/
+
+open Cuke.SchedBr Cuke.BrL in
+/-- **Every started feature and rule still gets its Finished** — also when fail-fast cut the run short: in every run
+    replayed without a class-B disagreement, once the bookkeeping is empty (`finish_all_rules_and_features` ran at the
+    exit) and nothing is owed any more, the stream that was sent has, per feature and per rule, as many Finished as
+    Started events. (The bracket ledger of C03; nothing in it depends on whether fail-fast tripped.) -/
+theorem lts_failfast_closes_brackets (c : SCfg) (ls : List Label) (hg : GoodB (accept c ls) = true)
+    (hb : (accept c ls).br = Brackets.empty) (he : expEvents (accept c ls).expect = []) :
+    (∀ f, cnt (.featStarted f) (accept c ls).out = cnt (.featFinished f) (accept c ls).out) ∧
+    (∀ f r, cnt (.ruleStarted f r) (accept c ls).out = cnt (.ruleFinished f r) (accept c ls).out) := by
+  have hbi : BInv (accept c ls) := foldl_binv c ls {} binv_init hg
+  obtain ⟨hF, hR⟩ := hbi
+  rw [hb] at hF hR
+  have hh : hist (accept c ls) = (accept c ls).out := by simp [hist, he]
+  rw [hh] at hF hR
+  exact ⟨fun f => (hF.2 f).2 (by simp [keysF, Brackets.empty]), fun f r => (hR.2 f r).2 (by simp [keysR, Brackets.empty])⟩
+
+open Cuke.SchedOrd Cuke.SchedExit in
+/-- **… and nothing of a scenario follows the exit** (tripped or not): the closing brackets and run-Finished are the
+    end of the stream's scenario-related part. -/
+theorem lts_failfast_exit_is_final (c : SCfg) (pre post : List Label) (sl : Bool)
+    (hc : Clean0 (accept c (pre ++ [.idle true sl] ++ post)) = true) :
+    ∀ k ret se, Label.tx (.scen k ret se) ∉ post := by
+  have hacc : accept c (pre ++ [.idle true sl] ++ post) = post.foldl (stepL c) (stepL c (accept c pre) (.idle true sl)) := by
+    simp [accept, List.foldl_append]
+  rw [hacc] at hc
+  have hmono : ∀ (ls : List Label) (s : SState), Clean0 (ls.foldl (stepL c) s) = true → Clean0 s = true := by
+    intro ls
+    induction ls with
+    | nil => intro s h; exact h
+    | cons l rest ih2 => intro s h; exact clean0_step_mono c s l (ih2 _ h)
+  exact exiting_run c post _ (idle_true_exiting c (accept c pre) sl (clean0_all _ (hmono post _ hc)).1) hc
+
 end Cuke.C08
+
